@@ -20,6 +20,10 @@
                     error exits: WKill e -> WWait e -> EJoin1 e -> EJoin2 e -> WDone (RErr e)
                     success:     OJoin1 code -> OJoin2 o1 code -> WDone (ROk o1 o2 code)
                   (join_writer is not modelled: stdin belongs to C15).
+                  join_capture on the success path = join; re-read the flag (shape recorded in
+                  GenCapture.join_recheck_mode: own code only / any recorded overflow);
+                  String::from_utf8.  A failing stdout join returns at once (stderr's reader is
+                  left detached).
      clock        logical milliseconds; [Tick] advances it; `start` is 0.
    Every constant and every choice that is read off the source text comes from GenCapture.v. *)
 From Coq Require Import ZArith List Bool Lia.
